@@ -4,6 +4,7 @@ import ZeepModel.Lex.Simple
 import ZeepModel.Lex.Base64
 import ZeepModel.Lex.DateTime
 import ZeepModel.Lex.Decimal
+import ZeepModel.Lex.Duration
 namespace Driver
 open Lean Zeep.Digits Zeep.GTypes Zeep.Simple Zeep.DateTime
 
@@ -33,6 +34,7 @@ def lexEnc (j : Json) : R Json := do
     let a ← arr v
     pure (jStrL (encDateTime ⟨⟨← nat (← at! a 0), ← nat (← at! a 1), ← nat (← at! a 2)⟩,
       ⟨← nat (← at! a 3), ← nat (← at! a 4), ← nat (← at! a 5), ← nat (← at! a 6), ← parseTzJ (← at! a 7)⟩⟩))
+  | "duration" => pure (jStrL (Zeep.Duration.encDur (← int v)))
   | "decimal" => do
     let a ← arr v
     pure (jStrL (Zeep.Decimal.encDec ⟨← bool (← at! a 0), ← nat (← at! a 1), ← int (← at! a 2)⟩))
@@ -61,6 +63,7 @@ def lexDec (j : Json) : R Json := do
       | some v => Json.arr #[jNat v.date.year, jNat v.date.month, jNat v.date.day,
           jNat v.time.hour, jNat v.time.minute, jNat v.time.second, jNat v.time.micro, jTz v.time.tz]
       | none => Json.null)
+  | "duration" => pure (match Zeep.Duration.decDur (collapseWs t) with | some u => jInt u | none => Json.null)
   | "decimal" => pure (match Zeep.Decimal.decDec (collapseWs t) with
       | some d => Json.arr #[Json.bool d.neg, jNat d.coeff, jInt d.exp] | none => Json.null)
   | "base64" => pure (match Zeep.Base64.decodeLenient t with | some b => jList jNat b | none => Json.null)
